@@ -5,7 +5,13 @@ from __future__ import annotations
 from typing import TYPE_CHECKING
 
 from xknx.io.const import CONNECTIONSTATE_REQUEST_TIMEOUT
-from xknx.knxip import HPAI, ConnectionStateRequest, ConnectionStateResponse, KNXIPFrame
+from xknx.knxip import (
+    HPAI,
+    ConnectionStateRequest,
+    ConnectionStateResponse,
+    KNXIPBody,
+    KNXIPFrame,
+)
 
 from .request_response import RequestResponse
 
@@ -36,3 +42,9 @@ class ConnectionState(RequestResponse[ConnectionStateResponse]):
             control_endpoint=self.local_hpai,
         )
         return KNXIPFrame.init_from_body(connectionstate_request)
+
+    def _answers_request(self, body: KNXIPBody) -> bool:
+        """Accept only the ConnectionStateResponse for the channel of this request."""
+        if isinstance(body, ConnectionStateResponse):
+            return body.communication_channel_id == self.communication_channel_id
+        return True
